@@ -72,6 +72,32 @@ func c02Mutate(r *Rng, prev PolicySpec) (PolicySpec, string) {
 	if len(p.Files) > 0 {
 		p.Files[0].Version++
 	}
+	if len(p.Files) > 1 && r.Chance(45) {
+		// the policy has a delegated rule file: replay / remove / bump it, with the primary rule
+		// file's version unchanged or bumped
+		if r.Bool() {
+			p.Files[0].Version = prev.Files[0].Version // primary unchanged
+		}
+		switch r.Intn(4) {
+		case 0:
+			if p.Files[1].Version > 1 {
+				p.Files[1].Version--
+				return p, "delegated-version-rollback"
+			}
+			p.Files[1].Version++
+			return p, "delegated-bump"
+		case 1:
+			p.Files = p.Files[:1]
+			return p, "delegated-removed"
+		case 2:
+			p.Files[1].Version++
+			return p, "delegated-bump"
+		default:
+			p.Files[1].Signers = []int{kOutsider}
+			p.Files[1].Version++
+			return p, "delegated-forged"
+		}
+	}
 	switch x := r.Intn(100); {
 	case x < 22:
 		return p, "valid-bump"
@@ -187,6 +213,13 @@ func c02Case(t *testing.T, id int, seed uint64, out *Out) {
 	main := "refs/heads/main"
 	pol := basePolicy()
 	meta := ""
+	if r.Chance(45) {
+		// start with a delegated rule file (version 2, so that it can be rolled back)
+		sub := RuleFileSpec{Name: "protect-main", Version: 2, Signers: []int{2}}
+		sub.Rules = []RuleSpec{{Name: "sub-main", Patterns: []string{"git:refs/heads/main"}, Principals: []int{1002}, Threshold: 1}}
+		pol.Files = append(pol.Files, sub)
+		meta += "with-delegation,"
+	}
 	var tip *int
 	nblob := 0
 	push := func() int {
@@ -200,7 +233,7 @@ func c02Case(t *testing.T, id int, seed uint64, out *Out) {
 		pushes = append(pushes, push()) // before any policy
 	}
 	b.AddPolicy(pol, r.Chance(70))
-	nStates := 1 + r.Intn(4)
+	nStates := 2 + r.Intn(4)
 	for s := 0; s < nStates; s++ {
 		for k := r.Intn(3); k > 0; k-- {
 			pushes = append(pushes, push())
